@@ -60,6 +60,7 @@ type Ctx struct {
 	start     time.Time
 	nFuncs    int
 	rangeMemo map[*ssa.Function][4]int64
+	roleMemo  map[string]*ssa.Function
 	rangeBusy map[*ssa.Function]bool
 	lenMemo   map[any][2]int64
 }
@@ -240,6 +241,26 @@ func (c *Ctx) spkg(rel string) *ssa.Package {
 // fn resolves "Name" or "Recv.Name" in a module-relative package to its SSA function.
 // Generic functions resolve to their origin (type-parameterised) body.
 func (c *Ctx) fn(rel, name string) *ssa.Function {
+	if f := c.fnByName(rel, name); f != nil && len(f.Blocks) > 0 {
+		return f
+	}
+	// an unexported anchor that was renamed: found again by what it does (E20 roles)
+	if r, ok := roleResolvers[rel+":"+name]; ok {
+		if c.roleMemo == nil {
+			c.roleMemo = map[string]*ssa.Function{}
+		}
+		if f, done := c.roleMemo[rel+":"+name]; done {
+			return f
+		}
+		c.roleMemo[rel+":"+name] = nil
+		f := r(c)
+		c.roleMemo[rel+":"+name] = f
+		return f
+	}
+	return c.fnByName(rel, name)
+}
+
+func (c *Ctx) fnByName(rel, name string) *ssa.Function {
 	p := c.pkg(rel)
 	if p == nil {
 		return nil
